@@ -3,6 +3,7 @@ package dag
 import (
 	"errors"
 	"fmt"
+	"math"
 	"os"
 	"os/exec"
 	"regexp"
@@ -99,6 +100,9 @@ var (
 	)
 	errExecutorConfigMustBeStringOrMap = errors.New(
 		"executor config must be string or map",
+	)
+	errExecutorConfigValueNotFinite = errors.New(
+		"executor config value must be a finite number",
 	)
 )
 
@@ -707,43 +711,61 @@ func assignValues(command string, params map[string]string) string {
 	return updatedCommand
 }
 
-// convertMap converts a map[any]any to a map[string]any.
+// convertMap converts every map[any]any inside the executor config (also
+// those inside lists) to a map[string]any and rejects values that cannot be
+// serialized in the status of the DAG (NaN, infinity).
 func convertMap(m map[string]any) error {
-	if m == nil {
-		return nil
-	}
-
-	queue := []map[string]any{m}
-
-	for len(queue) > 0 {
-		curr := queue[0]
-
-		for k, v := range curr {
-			mm, ok := v.(map[any]any)
-			if !ok {
-				// TODO: do we need to return an error here?
-				continue
-			}
-
-			ret := make(map[string]any)
-			for kk, vv := range mm {
-				key, err := parseKey(kk)
-				if err != nil {
-					return fmt.Errorf(
-						"%w: %s", errExecutorConfigMustBeString, err,
-					)
-				}
-				ret[key] = vv
-			}
-
-			delete(curr, k)
-			curr[k] = ret
-			queue = append(queue, ret)
+	for k, v := range m {
+		converted, err := convertValue(v)
+		if err != nil {
+			return err
 		}
-		queue = queue[1:]
+		m[k] = converted
 	}
 
 	return nil
+}
+
+// convertValue converts a value of the executor config.
+func convertValue(v any) (any, error) {
+	switch val := v.(type) {
+	case map[any]any:
+		ret := make(map[string]any, len(val))
+		for kk, vv := range val {
+			key, err := parseKey(kk)
+			if err != nil {
+				return nil, fmt.Errorf(
+					"%w: %s", errExecutorConfigMustBeString, err,
+				)
+			}
+			converted, err := convertValue(vv)
+			if err != nil {
+				return nil, err
+			}
+			ret[key] = converted
+		}
+		return ret, nil
+
+	case []any:
+		ret := make([]any, len(val))
+		for i, vv := range val {
+			converted, err := convertValue(vv)
+			if err != nil {
+				return nil, err
+			}
+			ret[i] = converted
+		}
+		return ret, nil
+
+	case float64:
+		if math.IsNaN(val) || math.IsInf(val, 0) {
+			return nil, fmt.Errorf(
+				"%w: %v", errExecutorConfigValueNotFinite, val,
+			)
+		}
+	}
+
+	return v, nil
 }
 
 // buildConfigEnv builds the environment variables from the map.
